@@ -7,6 +7,7 @@
 -/
 import Resolved.Spec.CacheSpec
 import Resolved.Proofs.CachePruneSpec
+import Resolved.Proofs.CacheUse
 
 namespace Resolved
 
@@ -281,5 +282,222 @@ example :
     (st.prune (8 * NANOS)).map (·.1.partitions.map (·.1)) = some [d.name] ∧
     expiredTotal st (8 * NANOS) = 1 ∧ liveTotal st (8 * NANOS) = 2 := by
   decide
+
+/-! ## What counts as a use
+
+"Least recently USED" is about `last_read`.  Which lookups refresh it (and the access queue that
+`prune` pops from) is part of the property: a lookup that finds nothing under the asked type must
+not make the name look recently used.  The model mirrors `get_without_checking_expiration`
+(touches only when the record key exists — emptied per-type vectors are kept by
+`remove_expired_step`, so an emptied vector still counts as a key) and
+`get_partition_without_checking_expiration` (touches whenever the partition exists). -/
+
+/-- A1: a typed lookup (`SharedCache::get` and `get_without_checking_expiration` alike) for a type
+    whose key the name's partition does not hold — or for a name without a partition — leaves the
+    WHOLE cache unchanged (`last_read`, both queues, counters) and returns nothing. -/
+theorem C15_typed_miss_is_not_a_use (c : PCache) (name : Name) (t now : Nat) (ht : t ≠ QTYPE_WILDCARD)
+    (hmiss : ∀ p, PCache.getPartition c.partitions name = some p → PCache.getTuples p.records t = none) :
+    (cacheGet c name t now).1 = c ∧ (cacheGet c name t now).2 = [] ∧
+    (cacheGetUnchecked c name t now).1 = c ∧ (cacheGetUnchecked c name t now).2 = [] ∧
+    c.getTouch name t now = (c, none) := by
+  have h1 := cu_cacheGet_miss (c := c) (name := name) now ht hmiss
+  have h2 := cu_cacheGetUnchecked_miss (c := c) (name := name) now ht hmiss
+  rw [h1, h2]
+  exact ⟨rfl, rfl, rfl, rfl, cu_getTouch_miss now hmiss⟩
+
+/-- … likewise for a name the cache holds nothing about, whatever is asked (ANY included). -/
+theorem C15_absent_name_is_not_a_use (c : PCache) (name : Name) (t now : Nat)
+    (habs : PCache.getPartition c.partitions name = none) :
+    cacheGet c name t now = (c, []) ∧ cacheGetUnchecked c name t now = (c, []) ∧
+    c.getPartitionTouch name now = (c, none) := by
+  have hu : cacheGetUnchecked c name t now = (c, []) := by
+    by_cases ht : t = QTYPE_WILDCARD
+    · subst ht; exact cu_cacheGetUnchecked_any_absent now habs
+    · exact cu_cacheGetUnchecked_miss now ht (cu_noKey_of_absent habs t)
+  refine ⟨?_, hu, cu_getPartitionTouch_absent now habs⟩
+  unfold cacheGet; rw [hu]; rfl
+
+/-- The query-only types `AXFR`, `MAILB`, `MAILA` never touch the cache. -/
+theorem C15_query_only_types_are_not_a_use (c : PCache) (name : Name) (t now : Nat)
+    (ht : t = 252 ∨ t = 253 ∨ t = 254) :
+    cacheGet c name t now = (c, []) ∧ cacheGetUnchecked c name t now = (c, []) := by
+  have hu := cu_cacheGetUnchecked_queryOnly (c := c) (name := name) now ht
+  refine ⟨?_, hu⟩
+  unfold cacheGet; rw [hu]; rfl
+
+/-- A2: a typed lookup for a record type whose key the partition holds — even with an empty or
+    fully expired list — IS a use: `last_read` of that partition becomes `now`, the access-queue
+    priority of the name is changed to `now`, and nothing else changes (records, `size`,
+    `next_expiry` of the partition; every other partition; every other queue entry; the expiry queue;
+    the counters).  The records returned are the `to_rrs` image of the stored list. -/
+theorem C15_typed_hit_is_a_use (c : PCache) (name : Name) (t now : Nat) (p : Partition) (ts : Tuples)
+    (ht : t ≠ 252 ∧ t ≠ 253 ∧ t ≠ 254 ∧ t ≠ 255)
+    (hp : PCache.getPartition c.partitions name = some p) (hts : PCache.getTuples p.records t = some ts) :
+    (cacheGetUnchecked c name t now).1 = (cacheGet c name t now).1 ∧
+    (cacheGet c name t now).1 =
+      { c with partitions := PCache.setPartition c.partitions name { p with lastRead := now }
+               accessPriority := c.accessPriority.change name now } ∧
+    PCache.getPartition (cacheGet c name t now).1.partitions name =
+      some { lastRead := now, nextExpiry := p.nextExpiry, size := p.size, records := p.records } ∧
+    (∀ k, k ≠ name →
+      PCache.getPartition (cacheGet c name t now).1.partitions k = PCache.getPartition c.partitions k ∧
+      AL.get (cacheGet c name t now).1.accessPriority k = AL.get c.accessPriority k) ∧
+    (Inv c → AL.get (cacheGet c name t now).1.accessPriority name = some now) ∧
+    (cacheGet c name t now).1.expiryPriority = c.expiryPriority ∧
+    (cacheGet c name t now).1.currentSize = c.currentSize ∧
+    (cacheGet c name t now).1.desiredSize = c.desiredSize ∧
+    (cacheGetUnchecked c name t now).2 = toRRs name now ts := by
+  have hq := (cu_lookup_none_iff t).mpr ht
+  have h1 := cu_cacheGet_hit (c := c) (name := name) now hq hp hts
+  have h2 := cu_cacheGetUnchecked_hit (c := c) (name := name) now hq hp hts
+  rw [h1, h2]
+  refine ⟨rfl, rfl, ?_, ?_, ?_, rfl, rfl, rfl, rfl⟩
+  · rw [cu_touch_get]; simp
+  · intro k hk
+    rw [cu_touch_get, cu_touch_queue]; simp [hk]
+  · intro hinv
+    rw [cu_touch_queue]
+    have := hinv.aq_get name
+    simp only [getPartition_eq] at hp
+    rw [hp] at this
+    simp [this]
+
+/-- A3: the ANY path (`get_partition_without_checking_expiration`, reached through a lookup with
+    query type `*`) is a use whenever the partition exists, whatever it holds. -/
+theorem C15_any_lookup_is_a_use (c : PCache) (name : Name) (now : Nat) (p : Partition)
+    (hp : PCache.getPartition c.partitions name = some p) :
+    c.getPartitionTouch name now =
+      ({ c with partitions := PCache.setPartition c.partitions name { p with lastRead := now }
+                accessPriority := c.accessPriority.change name now }, some p.records) ∧
+    (cacheGet c name QTYPE_WILDCARD now).1 = (c.getPartitionTouch name now).1 ∧
+    (cacheGetUnchecked c name QTYPE_WILDCARD now).1 = (c.getPartitionTouch name now).1 ∧
+    PCache.getPartition (c.getPartitionTouch name now).1.partitions name =
+      some { lastRead := now, nextExpiry := p.nextExpiry, size := p.size, records := p.records } ∧
+    (∀ k, k ≠ name →
+      PCache.getPartition (c.getPartitionTouch name now).1.partitions k = PCache.getPartition c.partitions k ∧
+      AL.get (c.getPartitionTouch name now).1.accessPriority k = AL.get c.accessPriority k) ∧
+    (Inv c → AL.get (c.getPartitionTouch name now).1.accessPriority name = some now) := by
+  have h0 := cu_getPartitionTouch_hit (c := c) (k := name) now hp
+  have h2 := cu_cacheGetUnchecked_any_hit (c := c) (name := name) now hp
+  rw [cu_cacheGet_fst, h2, h0]
+  refine ⟨rfl, rfl, rfl, ?_, ?_, ?_⟩
+  · rw [cu_touch_get]; simp
+  · intro k hk
+    rw [cu_touch_get, cu_touch_queue]; simp [hk]
+  · intro hinv
+    rw [cu_touch_queue]
+    have := hinv.aq_get name
+    simp only [getPartition_eq] at hp
+    rw [hp] at this
+    simp [this]
+
+/-- A4, history form.  `cu_Misses c k op` (Proofs/CacheUse.lean): `op` is a lookup of another name,
+    a typed (non-ANY) lookup of `k` for a type key `k`'s partition does not hold, or an insertion
+    under another name.  A history of such operations leaves the partition of `k` — `last_read`
+    included — and `k`'s access-queue entry exactly as they were. -/
+theorem C15_misses_leave_last_read (c : PCache) (k : Name) (ops : List CacheOp)
+    (hops : ∀ op ∈ ops, cu_Misses c k op) :
+    PCache.getPartition (runFrom c ops).partitions k = PCache.getPartition c.partitions k ∧
+    AL.get (runFrom c ops).accessPriority k = AL.get c.accessPriority k := by
+  have := cu_run_misses k ops c hops
+  exact ⟨congrArg Prod.fst this, congrArg Prod.snd this⟩
+
+/-- … in particular for a list of typed lookups of `k` itself (checked or unchecked, at any clock
+    readings) for types it does not hold: folded over the cache they change NOTHING at all. -/
+theorem C15_typed_misses_fold (c : PCache) (k : Name) (lookups : List (Nat × Nat))
+    (hl : ∀ l ∈ lookups, l.1 ≠ QTYPE_WILDCARD ∧
+      ∀ p, PCache.getPartition c.partitions k = some p → PCache.getTuples p.records l.1 = none) :
+    lookups.foldl (fun c l => (cacheGet c k l.1 l.2).1) c = c ∧
+    lookups.foldl (fun c l => (cacheGetUnchecked c k l.1 l.2).1) c = c := by
+  induction lookups with
+  | nil => exact ⟨rfl, rfl⟩
+  | cons l ls ih =>
+    obtain ⟨h1, h2⟩ := hl l (by simp)
+    obtain ⟨a, _, b, _⟩ := C15_typed_miss_is_not_a_use c k l.1 l.2 h1 h2
+    simp only [List.foldl_cons, a, b]
+    exact ih (fun l' hl' => hl l' (by simp [hl']))
+
+/-- A4, consequence for the eviction order (with `C15_lru`): misses do not protect a name.  Let `k`
+    hold partition `p`, let any history of operations that only MISS `k` follow, then a `prune`.
+    `k`'s `last_read` is still `p.lastRead`, and every name that was used later than that — however
+    long before the misses — outlives `k`: if such a name is evicted (with live records), `k` is
+    gone too. -/
+theorem C15_misses_do_not_protect_from_eviction (c : PCache) (h : Inv c) (k : Name) (p : Partition)
+    (ops : List CacheOp) (hp : PCache.getPartition c.partitions k = some p)
+    (hops : ∀ op ∈ ops, cu_Misses c k op)
+    (now : Nat) (c' : PCache) (r : Bool × Nat × Nat × Nat)
+    (hprune : (runFrom c ops).prune now = some (c', r)) :
+    PCache.getPartition (runFrom c ops).partitions k = some p ∧
+    ∀ kp2 ∈ (runFrom c ops).partitions, p.lastRead < kp2.2.lastRead → liveCount now kp2.2 > 0 →
+      kp2.1 ∉ AL.keys c'.partitions → k ∉ AL.keys c'.partitions := by
+  have hpk : PCache.getPartition (runFrom c ops).partitions k = some p := by
+    rw [← hp]; exact (C15_misses_leave_last_read c k ops hops).1
+  refine ⟨hpk, ?_⟩
+  intro kp2 hkp2 hlt hlive hnot hk
+  have hi := h.runFrom ops
+  obtain ⟨kp', hkp', hk'⟩ := List.mem_map.mp hk
+  obtain ⟨kp, hkp, hkeq, _, hlr⟩ := C15_survivors _ c' now r hi hprune kp' hkp'
+  have hkp2eq : kp.2 = p := by
+    have h1 := AL.get_of_mem hi.keysNodup (show (kp.1, kp.2) ∈ (runFrom c ops).partitions from hkp)
+    rw [hkeq, hk'] at h1
+    simp only [getPartition_eq] at hpk
+    rw [hpk] at h1
+    cases h1; rfl
+  have hle := C15_lru _ c' now r hi hprune kp2 hkp2 hlive hnot kp' hkp'
+  rw [hlr, hkp2eq] at hle
+  omega
+
+/-- non-vacuity of A1–A3 on a concrete cache: `a.` holds one A record inserted at t = 0.  An AAAA
+    lookup at 5 s changes nothing; an A lookup, and an ANY lookup, set `last_read` to 5 s. -/
+example :
+    let a : RR := ⟨⟨[[97], []], 3⟩, 1, [], 1, 60⟩
+    let c := sharedInsert (PCache.new 10) a 0
+    (cacheGet c a.name 28 (5 * NANOS)).1 = c ∧ (cacheGetUnchecked c a.name 28 (5 * NANOS)).1 = c ∧
+    (c.partitions.map (·.2.lastRead)) = [0] ∧
+    ((cacheGet c a.name 1 (5 * NANOS)).1.partitions.map (·.2.lastRead)) = [5 * NANOS] ∧
+    ((cacheGet c a.name 1 (5 * NANOS)).1.accessPriority.map (·.2)) = [5 * NANOS] ∧
+    ((cacheGet c a.name 255 (5 * NANOS)).1.partitions.map (·.2.lastRead)) = [5 * NANOS] ∧
+    ((cacheGet c a.name 252 (5 * NANOS)).1.partitions.map (·.2.lastRead)) = [0] := by
+  decide
+
+/-- an emptied per-type list still counts as a key: `a.` holds A (TTL 5 s) and MX (TTL 60 s); the
+    prune at 8 s empties the A list but keeps the key, so the A lookup at 9 s returns nothing and
+    yet refreshes `last_read` (as the Rust does). -/
+example :
+    let a1 : RR := ⟨⟨[[97], []], 3⟩, 1, [], 1, 5⟩
+    let a2 : RR := ⟨⟨[[97], []], 3⟩, 15, [], 1, 60⟩
+    let c := run 10 [.insert a1 0, .insert a2 0, .prune (8 * NANOS)]
+    (c.partitions.map (·.2.records)) = [[(1, []), (15, [(⟨15, []⟩, 60 * NANOS)])]] ∧
+    (cacheGet c a1.name 1 (9 * NANOS)).2 = [] ∧
+    ((cacheGet c a1.name 1 (9 * NANOS)).1.partitions.map (·.2.lastRead)) = [9 * NANOS] := by
+  decide
+
+/-- non-vacuity of A4: `a.` inserted at 0 s, `b.` at 1 s, desired size 1.  AAAA lookups of `a.` (which
+    holds only A) at 2 s and 3 s are misses, so the prune at 4 s evicts `a.` and keeps `b.`; had the
+    lookup at 2 s been for A (a hit), `b.` would have been evicted instead. -/
+example :
+    let a : RR := ⟨⟨[[97], []], 3⟩, 1, [], 1, 60⟩
+    let b : RR := ⟨⟨[[98], []], 3⟩, 1, [], 1, 60⟩
+    let c := run 1 [.insert a 0, .insert b NANOS]
+    let misses : List CacheOp := [.get a.name 28 (2 * NANOS), .getUnchecked a.name 28 (3 * NANOS)]
+    runFrom c misses = c ∧
+    ((runFrom c misses).prune (4 * NANOS)).map (·.1.partitions.map (·.1)) = some [b.name] ∧
+    ((runFrom c [.get a.name 1 (2 * NANOS)]).prune (4 * NANOS)).map (·.1.partitions.map (·.1)) = some [a.name] := by
+  decide
+
+/-- the hypothesis `cu_Misses` of the history theorems is satisfiable by exactly such lookups -/
+example :
+    let a : RR := ⟨⟨[[97], []], 3⟩, 1, [], 1, 60⟩
+    let b : RR := ⟨⟨[[98], []], 3⟩, 1, [], 1, 60⟩
+    let c := run 1 [.insert a 0, .insert b NANOS]
+    ∀ op ∈ ([.get a.name 28 (2 * NANOS), .getUnchecked a.name 28 (3 * NANOS), .get b.name 1 (3 * NANOS),
+        .insert b (3 * NANOS)] : List CacheOp), cu_Misses c a.name op := by
+  intro a b c op hop
+  simp only [List.mem_cons, List.not_mem_nil, or_false] at hop
+  rcases hop with rfl | rfl | rfl | rfl
+  · exact Or.inr ⟨by decide, by decide⟩
+  · exact Or.inr ⟨by decide, by decide⟩
+  · exact Or.inl (by decide)
+  · show b.name ≠ a.name; decide
 
 end Resolved
